@@ -69,7 +69,9 @@ Verdict ==
       impl_match |-> ImplMatch(pre, step, post, out, eng),
       prop |-> [C01 |-> C01(pre, step, post, out),
                 C02 |-> C02(pre, step, post, out),
-                C03 |-> C03(pre, step, post, out)]]
+                C03 |-> C03(pre, step, post, out),
+                C10 |-> C10(pre, step, post, out, eng),
+                C11 |-> C11(pre, step, post, out, eng)]]
 
 Emit == PrintT(ToJson(Verdict))
 =============================================================================
